@@ -80,10 +80,11 @@ func LiveMPD(a *asset, mpdName string, cfg *ResponseConfig, drmCfg *drm.DrmConfi
 		strBuf.WriteString(cfg.Host)
 		for i := 1; i < len(cfg.URLParts); i++ {
 			strBuf.WriteString("/")
+			isOption := i < cfg.URLContentIdx // Parts from the asset path on are content, even if they look like options
 			switch {
-			case strings.HasPrefix(cfg.URLParts[i], "startrel_"):
+			case isOption && strings.HasPrefix(cfg.URLParts[i], "startrel_"):
 				strBuf.WriteString(fmt.Sprintf("start_%d", cfg.StartTimeS))
-			case strings.HasPrefix(cfg.URLParts[i], "stoprel_"):
+			case isOption && strings.HasPrefix(cfg.URLParts[i], "stoprel_") && cfg.StopTimeS != nil:
 				strBuf.WriteString(fmt.Sprintf("stop_%d", *cfg.StopTimeS))
 			default:
 				strBuf.WriteString(cfg.URLParts[i])
